@@ -7,6 +7,7 @@ import (
 	"go/types"
 	"os"
 	"strings"
+	"sync/atomic"
 	"time"
 
 	"golang.org/x/tools/go/ssa"
@@ -519,12 +520,50 @@ func (w *Worker) assertion(id string, c *Term) {
 	if cur, ok := w.evalUnderModel(c); ok && !cur {
 		r, m = Sat, w.model
 	} else {
+		capped := false
 		if nc.size > 20000 {
 			// a huge goal (checksum-like): on the unchanged tree such goals fold syntactically; do not let a broken
 			// tree spend a full time-out on every path (unknown is reported as inconclusive for this obligation)
 			w.solver.nextTO = 10000
+			capped = true
 		}
 		r, m = w.feasible(nc, true)
+		if capped && r == Unknown {
+			// a goal that legitimately needs longer (the CRC step lemma takes ~9 s unloaded): the first few capped
+			// unknowns of a task are retried with the full per-query time-out
+			e.mu.Lock()
+			retry := e.cappedRetries < 3
+			if retry {
+				e.cappedRetries++
+			}
+			e.mu.Unlock()
+			if retry {
+				r, m = w.feasible(nc, true)
+			}
+		}
+		if r == Unknown && !(e.cfg.StopFlag != nil && atomic.LoadInt32(e.cfg.StopFlag) != 0) {
+			// second opinion from the other solvers before the obligation is reported as inconclusive (bounded per task)
+			e.mu.Lock()
+			fb := e.fallbacks < 4
+			if fb {
+				e.fallbacks++
+			}
+			e.mu.Unlock()
+			if fb {
+				for _, alt := range altSolvers(e.cfg.Solver) {
+					as := NewSolver(alt, e.cfg.TimeoutMs, w.tt)
+					r2, m2 := as.Check(w.pc, nc, true)
+					as.Close()
+					if r2 != Unknown {
+						r, m = r2, m2
+						e.mu.Lock()
+						e.res.Fallbacks++
+						e.mu.Unlock()
+						break
+					}
+				}
+			}
+		}
 	}
 	ms := time.Since(t0).Milliseconds()
 	key := fmt.Sprintf("%s|%d|%d", id, nc.id, len(w.pc))
@@ -573,4 +612,14 @@ func (w *Worker) assertion(id string, c *Term) {
 		}
 	}
 	w.assume(c)
+}
+
+func altSolvers(kind string) []string {
+	if strings.HasPrefix(kind, "cvc5") {
+		return []string{"z3", "z3-new"}
+	}
+	if kind == "z3-new" {
+		return []string{"z3", "cvc5"}
+	}
+	return []string{"z3-new", "cvc5"}
 }
